@@ -338,6 +338,53 @@ def enumerate_and_replay(ctx, mode, lines, canon, name, entries, seen_pairs, all
     return len(outs), nproto
 
 
+def long_texts(ctx):
+    """Texts of 9..45 lines (line numbers with one, two digits, multiples of ten) with edits placed around lines 9, 10, 11, 19, 20, 21, 30, at the start and at the
+    end, contexts 0..3: the statement itself - apply(a, make(a, b)) = b and revert(b, make(a, b)) = a.  (The model's line-by-line automaton is exercised on the short texts.)"""
+    import random
+    from pytezos.protocol.diff import make_patch, apply_patch
+    rng = random.Random(ctx.seed + 30)
+    words = [w for pool in PLAIN for w in pool]
+    n_cases = 0
+    for length in (9, 10, 11, 12, 20, 21, 31, 45):
+        base = ['%s %d' % (words[(length + k) % len(words)], k) for k in range(1, length + 1)]
+        edits = []
+        for pos in sorted({1, 2, 8, 9, 10, 11, 19, 20, 21, 29, 30, length - 1, length} & set(range(1, length + 1))):
+            edits.append(('ins', pos)), edits.append(('del', pos)), edits.append(('rep', pos))
+        edits += [('multi', k) for k in range(6)]
+        for kind, pos in edits:
+            b = list(base)
+            if kind == 'ins':
+                b.insert(pos - 1, 'inserted before %d' % pos)
+            elif kind == 'del':
+                del b[pos - 1]
+            elif kind == 'rep':
+                b[pos - 1] = 'replaced %d' % pos
+            else:
+                for q_ in sorted(rng.sample(range(length), min(4, length)), reverse=True):
+                    b[q_:q_ + rng.randint(0, 2)] = ['multi %d %d' % (pos, q_)] * rng.randint(0, 2)
+            for eol_a, eol_b in ((True, True), (False, True), (True, False)):
+                ta = '\n'.join(base) + ('\n' if eol_a else '')
+                tb = '\n'.join(b) + ('\n' if eol_b and b else '')
+                for n in (0, 1, 2, 3):
+                    n_cases += 1
+                    ctx.count(('long', length, kind, pos, eol_a, eol_b, n), nontrivial=True)
+                    case = {'check': 'long', 'a': ta, 'b': tb, 'n': n}
+                    st, pt = call(make_patch, ta, tb, 'f.ml', context_size=n)
+                    if st == 'raised':
+                        ctx.mismatch('C30:long:make_patch:raises-' + pt.split(':')[0], 'make_patch on a %d-line text (%s at line %d, context %d) raised %s' % (length, kind, pos, n, pt), case)
+                        continue
+                    for rev, src, want in ((False, ta, tb), (True, tb, ta)):
+                        st2, got = call(apply_patch, src, pt, rev)
+                        if st2 == 'raised' or got != want:
+                            ctx.mismatch('C30:long:%s:%s' % ('revert' if rev else 'apply', 'raises-' + str(got).split(':')[0] if st2 == 'raised' else 'wrong-text'),
+                                         '%d-line text, %s at line %d, context %d: %s of make_patch(a, b) %s' % (length, kind, pos, n, 'revert' if rev else 'apply',
+                                                                                                              'raised %s' % got if st2 == 'raised' else 'does not give the other text'), case)
+                            break
+    ctx.replayed += n_cases
+    ctx.extra['long_text_round_trips'] = n_cases
+
+
 def run(ctx):
     ctx.rule = ('texts = sequences of at most L lines over 3 abstract line contents, last line with or without newline, empty text; contexts 0..3. Leg A: for every '
                 'pair TLC renders diffs from edit scripts (one canonical shortest script; every monotone script for shorter texts), checks they are valid diffs by the '
@@ -367,6 +414,7 @@ def run(ctx):
     ctx.notes.append('%d model runs replayed, %d (a, b, n) triples round-tripped, %d distinct make_patch outputs validated by TLC in both directions, %d protocol round trips' % (
         tot, len(seen), len(ents), totp))
     ctx.exhaustive = True
+    long_texts(ctx)
 
 
 def replay(ctx, rep):
@@ -374,7 +422,10 @@ def replay(ctx, rep):
 
     def tup(x):
         return tuple(tup(y) for y in x) if isinstance(x, list) else x
-    if c['check'] == 'model-diff':
+    if c['check'] == 'long':
+        long_texts(ctx)
+        ctx.mismatches = [m for m in ctx.mismatches if m.signature == rep.get('signature')] or ctx.mismatches
+    elif c['check'] == 'model-diff':
         from pytezos.protocol.diff import apply_patch
         st, got = call(apply_patch, c['src'], c['patch'], revert=c['rev'])
         if obs_class(st, got, c['want']):
